@@ -56,52 +56,79 @@ def _s(path):
         else None
 
 
-def kwalk(path, follow, cwd='/'):
+def kwalk(path, follow, cwd='/', root=None, blame=None):
     """The kernel's path walk done by hand: returns (location, err) where
     location is the last place examined ('' components, '.', '..' and
     symbolic links resolved) and err is None / 'ENOENT' / 'ENOTDIR' / 'ELOOP'.
     With follow=False a symbolic link in the final component is not
-    followed."""
+    followed.
+
+    If `root` and a list `blame` are given, blame receives one element: the
+    symbolic link (path, inode) whose target contributed the component with
+    which the walk last left `root` (None: a component of `path` itself)."""
     if not path.startswith('/'):
         path = cwd.rstrip('/') + '/' + path
-    comps = path.split('/')
+    comps = [(c, None) for c in path.split('/')]
     cur = []
     fuel = 40
     i = 0
+    inside = False
+    culprit = None
+
+    def track(loc, origin):
+        nonlocal inside, culprit
+        if root is None:
+            return
+        now = under(root, loc)
+        if inside and not now:
+            culprit = origin
+        elif now:
+            culprit = None
+        inside = now
+
+    def done(loc, err):
+        if blame is not None:
+            track(loc, comps[i - 1][1] if 0 < i <= len(comps) else None)
+            blame.append(culprit)
+        return loc, err
     while i < len(comps):
-        c = comps[i]
+        c, origin = comps[i]
         i += 1
         if c in ('', '.'):
             continue
         if c == '..':
             if cur:
                 cur.pop()
+            track('/' + '/'.join(cur), origin)
             continue
         new = '/' + '/'.join(cur + [c])
         rest = comps[i:]
         try:
             st = _o_lstat(new)
         except OSError:
-            return new, (None if not rest else 'ENOENT')
+            return done(new, None if not rest else 'ENOENT')
         if statmod.S_ISLNK(st.st_mode) and (rest or follow):
             if fuel == 0:
-                return new, 'ELOOP'
+                return done(new, 'ELOOP')
             fuel -= 1
             target = _o_readlink(new)
             if target == '':
-                return new, 'ENOENT'
+                return done(new, 'ENOENT')
+            me = (new, st.st_ino)
             if target.startswith('/'):
                 cur = []
-            comps = target.split('/') + rest
+                track('/', me)
+            comps = [(x, me) for x in target.split('/')] + rest
             i = 0
             continue
         if not rest:
-            return new, None
+            return done(new, None)
         if statmod.S_ISDIR(st.st_mode):
             cur.append(c)
+            track(new, origin)
             continue
-        return new, 'ENOTDIR'
-    return '/' + '/'.join(cur), None
+        return done(new, 'ENOTDIR')
+    return done('/' + '/'.join(cur), None)
 
 
 def would_take_effect(name, flags, loc, err):
@@ -141,13 +168,14 @@ def under(root, loc):
 
 class Event:
     __slots__ = ('name', 'path', 'follow', 'loc', 'err', 'mutating', 'req',
-                 'blocked', 'effective')
+                 'blocked', 'effective', 'culprit')
 
     def __init__(self, name, path, follow, loc, err, mutating, req):
         self.name, self.path, self.follow = name, path, follow
         self.loc, self.err, self.mutating, self.req = loc, err, mutating, req
         self.blocked = False
         self.effective = False  # the call would create / modify something
+        self.culprit = None     # link blamed for leaving the judged root
 
     def as_list(self):
         return [self.name, self.path, self.loc]
@@ -171,6 +199,7 @@ class Monitor:
         self.realpath_depth = 0
         self.follow_hint = None
         self.area = None          # temp area; mutations outside it are blocked
+        self.root = None          # judged root (blame tracking only)
         self.events = []
         self.req = None
         self.noise = []
@@ -235,8 +264,9 @@ class Monitor:
         finally:
             self.quiet_depth -= 1
 
-    def start(self, area, noise_prefixes=()):
+    def start(self, area, noise_prefixes=(), root=None):
         self.area = area
+        self.root = root
         self.events = []
         self.noise = []
         self.noise_prefixes = tuple(noise_prefixes)
@@ -256,8 +286,9 @@ class Monitor:
         if p is None:
             return None
         self.quiet_depth += 1
+        blame = []
         try:
-            loc, err = kwalk(p, follow, os.getcwd())
+            loc, err = kwalk(p, follow, os.getcwd(), self.root, blame)
             eff = mutating and would_take_effect(name, flags, loc, err)
         finally:
             self.quiet_depth -= 1
@@ -267,6 +298,7 @@ class Monitor:
             return None
         ev = Event(name, p, follow, loc, err, mutating, self.req)
         ev.effective = eff
+        ev.culprit = blame[0] if blame else None
         self.events.append(ev)
         return ev
 
@@ -629,16 +661,40 @@ class ServerWorld:
     def request(self, op, p, q=b''):
         """Send one real SFTP request; returns ('ok'|'err', detail, events)"""
         mon = self.mon
-        mon.start(self.area.top, self.noise_prefixes)
+        mon.start(self.area.top, self.noise_prefixes, self.area.root)
         try:
             try:
                 self.loop.run_until_complete(self._do(op, p, q))
                 st, detail = 'ok', ''
-            except (asyncssh.SFTPError, OSError) as exc:
+            except (asyncssh.Error, OSError) as exc:
                 st, detail = 'err', f'{type(exc).__name__}: {exc}'
+            except Deadlock as exc:
+                st, detail = 'err', f'Deadlock: {exc}'
         finally:
             mon.stop()
-        return st, detail, mon.take()
+        events = mon.take()
+        if detail.startswith('Deadlock') or self.conn.is_closed():
+            self._reconnect()
+        return st, detail, events
+
+    def _reconnect(self):
+        for t in asyncio.all_tasks(self.loop):
+            t.cancel()
+        self.loop.run_until_idle()
+
+        async def again():
+            try:
+                self.conn.abort()
+            except Exception:           # pylint: disable=broad-except
+                pass
+            self.conn = await asyncssh.connect(
+                '127.0.0.1', 2222, known_hosts=None, config=None,
+                client_keys=None, username='u',
+                encryption_algs=['aes128-gcm@openssh.com'],
+                compression_algs=['none'])
+            self.sftp = await self.conn.start_sftp_client(
+                sftp_version=self.sftp_version)
+        self.loop.run_until_complete(again())
 
     def judge(self, events):
         """events whose resolved location is not under the root"""
@@ -855,9 +911,13 @@ class DownloadWorld:
                 self.loop.run_until_complete(coro)
             except (asyncssh.Error, OSError, ValueError) as e:
                 exc = e
+            except Deadlock as e:
+                exc = RuntimeError(f'Deadlock: {e}')
         finally:
             mon.stop()
         events = mon.take()
+        if isinstance(exc, RuntimeError) or self.conn.is_closed():
+            self._reconnect()
         with mon.quiet():
             snap = self.area.snapshot(skip=('R',))
             after = self.area.decoy_attrs()
@@ -871,6 +931,24 @@ class DownloadWorld:
                     attempts=[e for e in events if e.mutating and
                               not under(self.area.dest, e.loc)],
                     outside=outside)
+
+    def _reconnect(self):
+        for t in asyncio.all_tasks(self.loop):
+            t.cancel()
+        self.loop.run_until_idle()
+
+        async def again():
+            try:
+                self.conn.abort()
+            except Exception:           # pylint: disable=broad-except
+                pass
+            self.conn = await asyncssh.connect(
+                '127.0.0.1', 2223, known_hosts=None, config=None,
+                client_keys=None, username='u',
+                encryption_algs=['aes128-gcm@openssh.com'],
+                compression_algs=['none'])
+            self.sftp = await self.conn.start_sftp_client()
+        self.loop.run_until_complete(again())
 
     def run_scp(self, script, dest, cont, preserve):
         """script: [(action, name bytes)]; dest: 'dir'|'none'|'file'"""
@@ -973,44 +1051,14 @@ class LinkBook:
                          ('T', 'R') + tuple(norm[1:].split('/')) == loc)
             self.first[ino] = (loc, not under(root, res), tgt, plain)
 
-    def culprit(self, ev):
-        """first symbolic link below the root followed while resolving the
-        event's path whose own resolution lies outside the root"""
-        root = self.world.area.root
-        path = ev.path
-        comps = path.split('/')
-        cur = ''
-        with self.world.mon.quiet():
-            for i, c in enumerate(comps):
-                if c in ('', '.'):
-                    continue
-                nxt = cur + '/' + c
-                try:
-                    st = _o_lstat(nxt)
-                except OSError:
-                    return None
-                last = i == len(comps) - 1
-                if statmod.S_ISLNK(st.st_mode) and (not last or ev.follow):
-                    res, _err = kwalk(nxt, True)
-                    if under(root, nxt) and not under(root, res):
-                        return st.st_ino, self.world.area.to_model(nxt)
-                    nxt = res
-                cur = nxt
-        return None
-
     def classify(self, ev):
-        root = self.world.area.root
-        textual = posixpath.normpath(ev.path)
-        if ev.path.startswith('//') and not ev.path.startswith('///'):
-            textual = textual[1:]
-        if not ev.path.startswith('/') or not under(root, textual):
-            return 'map-path'
-        c = self.culprit(ev)
-        if c is None:
-            return 'unclassified'
-        ino, loc = c
+        """Why did this system call end up outside the root?"""
+        if ev.culprit is None:
+            return 'map-path'       # the path string itself leads outside
+        link_path, ino = ev.culprit
+        loc = self.world.area.to_model(link_path)
         first = self.first.get(ino)
-        if first is None:
+        if first is None or loc is None or loc[:2] != ('T', 'R'):
             return 'symlink-unknown-origin'
         if first[1]:
             if first[2].startswith('/'):
